@@ -21,7 +21,7 @@ import (
 
 const (
 	cmd1 = "show alpha"
-	cmd2 = "show beta"
+	cmd2 = "show all" // ends in a doubled character: a fuzzy echo matcher that counts one echoed byte twice is exposed by a cut before the last byte
 )
 
 type outv struct{ name, text string }
@@ -41,7 +41,7 @@ var outs = []outv{
 	{"ansi", "\x1b[32mgreen\x1b[0m text\x1b[K\nplain \x1b[1;31mred\x1b[0m"},
 	{"crlf", "l1\nl2 \nl3"},
 	{"long", longOut(12)},
-	{"othercmd", "see show beta for more\nshow alpha is done"},
+	{"othercmd", "see show all for more\nshow alpha is done"},
 }
 
 type conf struct {
@@ -114,7 +114,7 @@ func scenario(prog string, o1, o2 outv, c conf, b sched.Bounds, cuts bool, tag s
 			})})
 			d.CRLF = crlf
 			if c.match == "wrap" {
-				d.Wrap, d.WrapEvery = " \r", 4
+				d.Wrap, d.WrapEvery = " \r", 3 // neither command length is a multiple of 3: no wrap bytes trail the echo
 			}
 			tr := dev.NewFake(e, d)
 			tr.Cuts = cuts
